@@ -8,7 +8,7 @@ depends on this file.  The driver is a stateless line evaluator, so an op carrie
          | (header i) | (len i) | (error i) | (undischarged i) | (undischargedFor i xLOC) | (count i F)
       one output token per op: `<result>~<state of every live bundle>`, tokens joined by " | "
 
-  (cache.run (sem share|copy) (scope every|that) (keys …) (trust …) xPERMLOC (ttl N) (hdrs xH…) (NOW OP)…)
+  (cache.run (sem share|copy) (order kid|text) (scope every|that) (keys …) (trust …) xPERMLOC (ttl N) (hdrs xH…) (NOW OP)…)
       OP = (verify i cached|direct) | (validate i REQ…) | (attenuate i ITEM…) | (discharge i …)
          | (filter i F) | (header i) | tick | (evict KEYHASH)
       output: the trace of the history as given, " # ", the trace of the same history with every
@@ -203,11 +203,11 @@ def traceStr (tr : List (Cache.Out × List Bundle)) : String :=
 
 /-- number of inner-verifier calls a cached verification makes: the distinct permission objects
 that miss -/
-def missCount (s : Cache.HSys) (now : Int) (i : Nat) : Nat :=
+def missCount (ko : Cache.KeyOrder) (s : Cache.HSys) (now : Int) (i : Nat) : Nat :=
   let b := s.get i
   let ts := s.heap.view b.rs
   let misses := (b.rs.zip ts).filter fun rt =>
-    isPermAt b.permLoc rt.2 && (Cache.hget s.store now (Cache.keyOf rt.2 (dischargesOf b.permLoc ts rt.2))).isNone
+    isPermAt b.permLoc rt.2 && (Cache.hget s.store now (Cache.keyOf ko rt.2 (dischargesOf b.permLoc ts rt.2))).isNone
   (misses.map (·.1)).eraseDups.length
 
 /-- object-level run; `evict` carries a key digest -/
@@ -218,7 +218,7 @@ def hrunIO (sem : Cache.Sem) (P : Cache.Params) : List (Int × Cache.Op) → Cac
       | .evict d => .evict (((s.store.find? fun e => hash8 e.key == String.ofList d).map (·.key)).getD [])
       | o => o
     let extra := match op' with
-      | .verify i .cached => s!"~calls={missCount s now i}"
+      | .verify i .cached => s!"~calls={missCount P.order s now i}"
       | _ => ""
     let (s', o) := Cache.hstep sem P now s op'
     (outStr o ++ "~" ++ statesStr s'.views ++ extra) :: hrunIO sem P rest s'
@@ -237,6 +237,11 @@ def stripCalls (s : String) : String :=
   match s.splitOn "~calls=" with
   | a :: _ => a
   | [] => s
+
+def order? : Sx → Option Cache.KeyOrder
+  | .list [.atom "order", .atom "kid"] => some .byKid
+  | .list [.atom "order", .atom "text"] => some .byText
+  | _ => none
 
 def sem? : Sx → Option Cache.Sem
   | .list [.atom "sem", .atom "share"] => some .share
@@ -268,15 +273,16 @@ def evalOpBundle : Sx → Option String
       let (s', o) ← bundleOp sc R pl st.1 op
       some (s', st.2 ++ [o ++ "~" ++ statesStr s'.views])) (⟨Heap.empty, []⟩, [])
     some (" | ".intercalate outs)
-  | .list (.atom "cache.run" :: sem :: sc :: ks :: tr :: pl :: .list [.atom "ttl", ttl] :: .list (.atom "hdrs" :: hs) :: steps) => do
+  | .list (.atom "cache.run" :: sem :: ord :: sc :: ks :: tr :: pl :: .list [.atom "ttl", ttl] :: .list (.atom "hdrs" :: hs) :: steps) => do
     let sem ← sem? sem
+    let ord ← order? ord
     let sc ← scope? sc
     let R : Bundle.Resolver := ⟨← keys? ks, ← trust? tr⟩
     let pl ← pl.bytes?
     let ttl ← ttl.int?
     let hdrs ← hs.mapM text?
     let hist ← steps.mapM timedOp?
-    let P : Cache.Params := { V := R.oracle, ttl, scope := sc }
+    let P : Cache.Params := { V := R.oracle, ttl, scope := sc, order := ord }
     let direct := hist.map fun no => (no.1, no.2.direct)
     let h0 := Cache.hinit pl hdrs
     let cachedH := hrunIO sem P hist h0
